@@ -40,6 +40,23 @@ Proof.
   destruct (mz_is_some (mz_ep s)), has_ts, (ts <? rlp0); cbn; repeat split; intros; congruence.
 Qed.
 
+(* several DISTINCT events relayed within one clock tick carry equal "ts": a message whose ts is not older than the sending
+   endpoint's remote log position - in particular EQUAL to it - is not dropped, the position becomes (stays) ts, the origin is
+   built as without ts; and the model handles it exactly like a message without ts as far as applying goes *)
+Lemma src_jsonrpc_equal_ts_processed : src_jsonrpc_message_origin_recognised = true ->
+  forall l s ts rlp0, (rlp0 <= ts)%Z ->
+    src_jsonrpc_message_origin (mz_is_some (mz_ep s)) true ts rlp0 (xz_ep_zone s) l (mz_cclaim s)
+    = (false, (if mz_is_some (mz_ep s) then ts else rlp0), mz_from_zone l s).
+Proof.
+  intros H l s ts rlp0 L. rewrite (src_jsonrpc_message_origin_eq H). cbv zeta.
+  assert (E: (ts <? rlp0)%Z = false) by (apply Z.ltb_ge; exact L). rewrite E.
+  destruct (mz_is_some (mz_ep s)); reflexivity.
+Qed.
+
+Lemma mz_not_older_processed : forall t c s m row eff,
+  mz_dropped (mz_handle_core t c s m MzTsNew row eff) = false /\ @eq bool (mz_applied (mz_handle_core t c s m MzTsNew row eff)) (mz_applied (mz_handle_core t c s m MzTsNone row eff)).
+Proof. intros. unfold mz_handle_core. destruct (mz_is_some (mz_ep s)); cbn; split; reflexivity. Qed.
+
 (* ------------------------------------------------------------------ RelayMessageOne: candidate zones *)
 Lemma xz_collect_children : forall (t : mz_tree) (l : nat) (body : list (option nat) -> option nat -> xl_ctl (list (option nat)) unit) (zs : list nat) acc,
   (forall a z, body a (Some z) = XlNext (if mz_onat_eqb (mz_par t z) (Some l) then a ++ [Some z] else a)) ->
